@@ -9,6 +9,8 @@ import (
 	"io"
 	"math/rand"
 	"net"
+	"sync"
+	"sync/atomic"
 	"time"
 
 	apicommon "github.com/enfein/mieru/v3/apis/common"
@@ -183,6 +185,10 @@ func c10SocksCase(c *Ctx) *Result {
 				drain(a)
 			})
 		case "udp-tunnel":
+			if it%3 == 2 {
+				c10AssocOrder(r, res)
+				continue
+			}
 			cfg := &socks5.Config{Users: users, HandshakeTimeout: 100 * time.Millisecond, AllowLoopbackDestination: true, AuthOpts: socks5.Auth{ClientSideAuthentication: true}}
 			serve(cfg, func(a net.Conn) {
 				a.Write([]byte{5, 3, 0, 1, 0, 0, 0, 0, 0, 0})
@@ -465,4 +471,87 @@ func c10UpstreamUDP(r *rand.Rand, res *Result) {
 	}
 	time.Sleep(300 * time.Millisecond)
 	m.Close()
+}
+
+// scriptConn is the tunnel side of a UDP association driven step by step:
+// Read hands out what the harness feeds, Write fails once told to.
+type scriptConn struct {
+	in        chan []byte
+	buf       []byte
+	failWrite atomic.Bool
+	closed    chan struct{}
+	once      sync.Once
+}
+
+func (s *scriptConn) Read(p []byte) (int, error) {
+	for len(s.buf) == 0 {
+		select {
+		case b, ok := <-s.in:
+			if !ok {
+				return 0, io.EOF
+			}
+			s.buf = b
+		case <-s.closed:
+			return 0, io.EOF
+		}
+	}
+	n := copy(p, s.buf)
+	s.buf = s.buf[n:]
+	return n, nil
+}
+func (s *scriptConn) Write(p []byte) (int, error) {
+	if s.failWrite.Load() {
+		return 0, io.ErrClosedPipe
+	}
+	return len(p), nil
+}
+func (s *scriptConn) Close() error                       { s.once.Do(func() { close(s.closed) }); return nil }
+func (s *scriptConn) LocalAddr() net.Addr                { return &net.TCPAddr{IP: net.IPv4(127, 0, 0, 1), Port: 1} }
+func (s *scriptConn) RemoteAddr() net.Addr               { return &net.TCPAddr{IP: net.IPv4(127, 0, 0, 1), Port: 2} }
+func (s *scriptConn) SetDeadline(t time.Time) error      { return nil }
+func (s *scriptConn) SetReadDeadline(t time.Time) error  { return nil }
+func (s *scriptConn) SetWriteDeadline(t time.Time) error { return nil }
+
+// c10AssocOrder: in a UDP association the reply direction fails first (the
+// client has gone: the reply cannot be written to the tunnel) and the request
+// direction, still draining what the client had queued, then meets a malformed
+// datagram (or the end of the tunnel). Whatever the order of the two failures,
+// the association ends with an error; the process goes on.
+func c10AssocOrder(r *rand.Rand, res *Result) {
+	echo, err := newUDPEcho("127.0.0.1", 'E', 0)
+	if err != nil {
+		return
+	}
+	defer echo.conn.Close()
+	relay, err := net.ListenUDP("udp4", &net.UDPAddr{IP: net.IPv4(127, 0, 0, 1)})
+	if err != nil {
+		return
+	}
+	sc := &scriptConn{in: make(chan []byte, 8), closed: make(chan struct{})}
+	sc.failWrite.Store(true)
+	done := make(chan struct{})
+	go func() {
+		defer close(done)
+		socks5.RunUDPAssociateLoop(relay, apicommon.NewPacketOverStreamTunnel(sc), &net.Resolver{})
+	}()
+	ep := echo.conn.LocalAddr().(*net.UDPAddr)
+	good := append(socksUDPHeader(ep.IP, ep.Port), dgramBody(0, 0, 64, 1)...)
+	sc.in <- frame(good)
+	time.Sleep(150 * time.Millisecond) // the echo's reply has arrived and could not be written to the tunnel
+	switch r.Intn(3) {
+	case 0:
+		sc.in <- frame(hostileBytes(r, 6))
+	case 1:
+		sc.in <- frame([]byte{0, 0, 1, 1, 127, 0, 0, 1, 0, 53, 'x'}) // FRAG != 0
+	default:
+		sc.in <- frame([]byte{0, 0, 0, 9, 1, 2, 3, 4, 0, 53}) // unknown address type
+	}
+	select {
+	case <-done:
+	case <-time.After(2 * time.Second):
+		sc.Close()
+		relay.Close()
+		<-done
+	}
+	res.Obs["association_failure_orders"]++
 }
